@@ -47,6 +47,11 @@ func cmdDNSPool(args []string) error {
 	h, coll := dc[0][0], dc[0][1]
 	sub, other := "sub."+h, "other.net"
 	pat := "||" + h + "^"
+	name253 := strings.Repeat("a", 61) + "." + strings.Repeat("b", 61) + "." + strings.Repeat("c", 61) + "." + strings.Repeat("d", 57) + "." + "example.xy"
+	name253 = name253[len(name253)-253:]
+	if name253[0] == '.' {
+		name253 = "e" + name253[1:]
+	}
 	pool := dnsPool{Note: fmt.Sprintf("hostnames %s and %s collide under djb2", h, coll)}
 	net := func(mod func(r *aRule)) {
 		r := emptyRule(pat)
@@ -80,6 +85,11 @@ func cmdDNSPool(args []string) error {
 	net(func(r *aRule) { r.RestDns = []string{"TXT"}; r.Badfilter = true })
 	// the shortest pattern an unrestricted rule may have
 	net(func(r *aRule) { r.Pat = bytesToInts(".co") })
+	// a "/label." pattern is matched against "http://<hostname>" for hostname requests (every letter and digit counts as
+	// part of a label, 'z' and '0' included)
+	net(func(r *aRule) { r.Pat = bytesToInts("/zone0.") })
+	// a bare domain of exactly 253 characters is still a hosts entry
+	host(name253, "v4", name253)
 	// client given by network: it counts whether or not the request also names the client
 	net(func(r *aRule) { r.PermCli = []aCli{{K: "net", Fam: 4, Bytes: []int{10, 0, 0, 0}, Bits: 8}} })
 	net(func(r *aRule) { r.RestCli = []aCli{{K: "net", Fam: 4, Bytes: []int{10, 0, 0, 5}, Bits: 32}} })
@@ -116,7 +126,7 @@ func cmdDNSPool(args []string) error {
 				continue
 			}
 			if err = checkRendered(e.Rule, r); err != nil {
-				return fmt.Errorf("renderer self-check %q: %v", e.Text, err)
+				return rejectedErr("the rule %q is parsed differently from what the specification says: %v", e.Text, err)
 			}
 		} else {
 			r, err := rules.NewRule(e.Text, 1)
@@ -136,7 +146,7 @@ func cmdDNSPool(args []string) error {
 		}
 	}
 	hs := map[string]bool{}
-	for _, name := range []string{h, coll, sub, other, "x" + h, "cafe.be", "1.2.3.4"} {
+	for _, name := range []string{h, coll, sub, other, "x" + h, "cafe.be", "1.2.3.4", "a_b." + h, "zone0." + h, name253} {
 		if !hs[name] {
 			hs[name] = true
 			pool.Hashes = append(pool.Hashes, niHash{W: bytesToInts(name), H: fmt.Sprint(filterutil.FastHash(name))})
@@ -147,6 +157,9 @@ func cmdDNSPool(args []string) error {
 					for _, cip := range []aIP{{Nil: true}, {Fam: 4, Bytes: []int{10, 0, 0, 5}}} {
 						if !cip.Nil && (dt == "AAAA" || len(tg) > 0) {
 							continue // the client address is varied for A queries without tags only
+						}
+						if len(name) > 200 && (dt != "A" || cl != "" || len(tg) > 0 || !cip.Nil) {
+							continue // the longest name is asked once (the model walks its characters for every rule)
 						}
 						q := aReq{Hostreq: true, URL: bytesToInts("http://" + name), Host: hostFromString(name), Src: aHost{}, HostIsIP: isIPLiteral(name),
 							HostPsl: realPsl(name), Type: "document", DNSType: dt, Tags: codesOf(tg), Cname: bytesToInts(cl), Cip: cip}
